@@ -87,13 +87,16 @@ CLAIMS = {
         note='Trusted: reference semantics written from the man page, stub archiver. Outside: more than 3 artifacts, expressions outside the enumerated list, replaced artifacts (same build-id, new content), real archive back-ends.'),
     'C02': dict(
         engine='Z+X',
-        technique='z3 collision queries over the Variant-Id pre-image recorded from the real CoreStep.getDigest / mergeScripts on symbolic strings; CrossHair enumeration of variable-list memberships through the real Recipe.prepare',
+        technique='z3 collision queries over the Variant-Id pre-image recorded from the real CoreStep.getDigest / mergeScripts on symbolic strings; CrossHair enumeration of variable-list memberships and of pairs of SCM specifications through the real parser / Recipe.prepare',
         text='(1) For every pair of step shapes in the bound (<= 2 tools x <= 2 libs, <= 2 variables, <= 2 arguments; symbolic contents/lengths) two steps with different script / tools (variant, path, libs) / '
              'strong variables / valid argument ids never feed the same bytes into SHA-1 (unsat). (2) For class+recipe with every placement of Setup/Script/Finalize fragments: different executed fragment '
              'sequence => different digest script, except the recorded known finding (Finalize order). (3) For all 2^14 memberships of a variable in the six *Vars/*VarsWeak lists of recipe and class: '
-             'a step sees the variable iff declared for it or an earlier step, its Variant-Id changes with the value iff it is strongly declared.',
+             'a step sees the variable iff declared for it or an earlier step, its Variant-Id changes with the value iff it is strongly declared. '
+             '(4) SCM specifications through the real parser: git (url, branch/tag/commit/ref, dir, submodules, recursive), url (url, SHA1/SHA256 digest, dir, file name, extract, stripComponents, fileMode) and import (path, dir): '
+             'two specifications that differ in one (thorough: up to two) attribute have different checkout, build and package Variant-Ids exactly when their documented relevant tuples differ; sslVerify, shallow, singleBranch, retries '
+             'do not change the id; a second SCM in another directory does.',
         design_ref='DESIGN.md section 4, C02',
-        note='Trusted: SHA-1 injectivity, ASCII strings with lengths < 256, specs of the documented variable rules. Outside: SCM asDigestScript text formats, YAML loading, include files, tool environment, provided variables of dependencies.'),
+        note='Trusted: SHA-1 injectivity, ASCII strings with lengths < 256, specs of the documented variable rules. Outside: SCM attribute values with blanks, svn/cvs SCMs, YAML loading, include files, tool environment, provided variables of dependencies.'),
     'C03': dict(
         engine='Z+X',
         technique='z3 non-interference and equivalence queries over the id pre-images recorded from the real CoreStep.getDigest and StepIR.getDigestCoro (vs. each other and vs. a frozen byte-format specification); '
